@@ -168,6 +168,7 @@ def main():
     ap.add_argument('pid')
     ap.add_argument('--tier', default=os.environ.get('VERIF_TIER', 'quick'))
     ap.add_argument('--only', default=None)
+    ap.add_argument('--cap', type=int, default=None, help='development aid: cap every obligation timeout (seconds)')
     ap.add_argument('--jobs', type=int, default=int(os.environ.get('VERIF_JOBS', '8')))
     a = ap.parse_args()
     pid = a.pid.upper()
@@ -180,6 +181,8 @@ def main():
     obs = [o for o in mod.OBLIGATIONS if a.tier == 'thorough' or o['tier'] == 'quick']
     if a.only:
         obs = [o for o in obs if a.only in o['name']]
+    if a.cap:
+        obs = [dict(o, timeout=min(o['timeout'], a.cap)) for o in obs]
     recs = []
     with cf.ThreadPoolExecutor(a.jobs) as ex:
         futs = {ex.submit(do_obligation, pid, modname, o): o for o in obs}
@@ -263,7 +266,7 @@ def main():
         'wall_s': round(time.time() - t0, 2),
         'violations': len(viol),
     }
-    if not a.only:
+    if not a.only and not a.cap:
         with open(os.path.join(EVID, '%s.json' % pid), 'w') as fd:
             json.dump(ev, fd, indent=1)
 
